@@ -358,3 +358,11 @@ Definition rule_firsts (g : list rule) (K : nat -> kind) (x : nat) : list nat :=
 Inductive yields (g : list rule) (K : nat -> kind) : nat -> nat -> Prop :=
 | yields_refl x : yields g K x x
 | yields_step x y z : K x = KAbstract -> In y (rule_firsts g K x) -> yields g K y z -> yields g K x z.
+
+(* rules of all NonTerminal nodes of a parse tree *)
+Fixpoint node_rules (t : tree) : list nat :=
+  match t with
+  | TT _ => []
+  | TN r kids => r :: (fix go (l : list tree) : list nat := match l with [] => [] | k :: l' => node_rules k ++ go l' end) kids
+  | TA kids => (fix go (l : list tree) : list nat := match l with [] => [] | k :: l' => node_rules k ++ go l' end) kids
+  end.
